@@ -46,7 +46,7 @@ def check_one(args):
            'syntactic': False, 'error': None, 'model_run': rep['run']}
     try:
         im = impl.Impl()
-        r = im.run(prog)
+        r = im.run(prog, mid_init_at=opts.get('mid_init_by_idx', {}).get(idx))
         out['impl_run'] = r[:2] if r[0] == 'err' else ('ok',)
         out['impl_err'] = r[2] if r[0] == 'err' else None
         mrun = rep['run']
@@ -59,7 +59,7 @@ def check_one(args):
         out['o1'] = 'agree'
         if r[0] != 'ok' or im.pb is None:
             return out
-        im.initialize(**opts.get('solver_kw', {}))
+        im.initialize(**opts.get('solver_kw_by_idx', {}).get(idx, opts.get('solver_kw', {})))
         A = im.assertions()
         ma, sp = compare.parse_model(rep)
         out['n_impl'], out['n_model'] = len(A), len(ma)
